@@ -84,4 +84,11 @@ EvalExpansion(arms, keys, dflt, s) ==
   IF hit # 0 THEN [k |-> "variant", i |-> hit, s |-> <<>>]
   ELSE IF dflt # 0 THEN [k |-> "capture", i |-> dflt, s |-> s]
   ELSE [k |-> "err", i |-> 0, s |-> s]
+
+\* ---- strum::ParseError: what the error of a failed parse tells its reader (std feature) ----
+\* Display: "Matching variant not found" (written with write!, so width/fill flags are ignored);
+\* Debug: the variant's name; Error::source: none; Copy/Clone/Eq/Hash: a plain unit value
+ParseErrorDisplay == <<77, 97, 116, 99, 104, 105, 110, 103, 32, 118, 97, 114, 105, 97, 110, 116, 32, 110, 111, 116, 32, 102, 111, 117, 110, 100>>
+ParseErrorDebug   == <<86, 97, 114, 105, 97, 110, 116, 78, 111, 116, 70, 111, 117, 110, 100>>
+ParseErrorDescr   == <<85, 110, 97, 98, 108, 101, 32, 116, 111, 32, 102, 105, 110, 100, 32, 97, 32, 118, 97, 114, 105, 97, 110, 116, 32, 111, 102, 32, 116, 104, 101, 32, 103, 105, 118, 101, 110, 32, 101, 110, 117, 109, 32, 109, 97, 116, 99, 104, 105, 110, 103, 32, 116, 104, 101, 32, 115, 116, 114, 105, 110, 103, 32, 103, 105, 118, 101, 110, 46, 32, 77, 97, 116, 99, 104, 105, 110, 103, 32, 99, 97, 110, 32, 98, 101, 32, 101, 120, 116, 101, 110, 100, 101, 100, 32, 119, 105, 116, 104, 32, 116, 104, 101, 32, 83, 101, 114, 105, 97, 108, 105, 122, 101, 32, 97, 116, 116, 114, 105, 98, 117, 116, 101, 32, 97, 110, 100, 32, 105, 115, 32, 99, 97, 115, 101, 32, 115, 101, 110, 115, 105, 116, 105, 118, 101, 46>>
 =============================================================================
